@@ -41,6 +41,22 @@ def as_found_models(wd):
     cfg = beh.CHAIN_CFG % (6, 3, 2, 30, 2, "FALSE", "ProbeConvergenceVacuous")
     r = C.model_check("ChainMC", cfg, os.path.join(wd, "af-chain-probe"), workers=4, xmx="4g", timeout=900)
     expect("ChainMC: the antecedent of InvConvergence is reachable (probe violated)", (not r["ok"]) and "ProbeConvergenceVacuous is violated" in r["out"])
+    # seeded-change classes as model switches: the dot-chain estimate taken from the source text (C03-B / C03-C), the
+    # comment alignment that counts whitespace-only lines (C03-A); the as-written models satisfy the same invariant
+    dot = beh.DOT_CFG % (7, 2, 1, 1, '"x", "L"', "0, 14", ", ".join(map(str, beh.DOT_WIDTHS)), 2, "FALSE", "InvConvergence")
+    r = C.model_check("DotChainMC", dot.replace("EstFromSource = FALSE", "EstFromSource = TRUE"), os.path.join(wd, "af-dot"),
+                      workers=4, xmx="4g", timeout=900)
+    expect("DotChainMC with the estimate taken from the source text violates InvConvergence",
+           (not r["ok"]) and "Invariant InvConvergence is violated" in r["out"])
+    r = C.model_check("DotChainMC", dot.replace("InvConvergence", "ProbeNeverBroken"), os.path.join(wd, "af-dot-probe"),
+                      workers=4, xmx="4g", timeout=900)
+    expect("DotChainMC: some chain is laid out broken at its dots (probe violated)",
+           (not r["ok"]) and "ProbeNeverBroken is violated" in r["out"])
+    cm = beh.COMMENT_CFG % (2, "0, 1, 3, 6", 16, 2, "FALSE", "InvConvergence")
+    r = C.model_check("CommentMC", cm.replace("AsFoundC = {}", 'AsFoundC = {"S03A"}'), os.path.join(wd, "af-cmt"),
+                      workers=4, xmx="4g", timeout=900)
+    expect("CommentMC counting whitespace-only lines in the common indentation violates InvConvergence",
+           (not r["ok"]) and "Invariant InvConvergence is violated" in r["out"])
     cfg = beh.MATHDELIM_CFG % (5, 2, 24, 2, "FALSE", "FALSE", "InvLineFeedsKept")
     r = C.model_check("MathDelimMC", cfg, os.path.join(wd, "af-mathdelim"), workers=4, xmx="4g", timeout=900)
     expect("MathDelimMC[inline] exhibits the recorded defect G07 (InvLineFeedsKept violated)",
